@@ -281,6 +281,34 @@ func NoReorder(p *core.Prog, r *core.Report, methods ...string) {
 					r.Bad("NO-REORDER", key, p.Pos(c.Pos()), fmt.Sprintf("the filled parts `%s` are passed to %s before they reach the constructor: a sort or any other permutation changes the reading order of the feature (exon 2 before exon 1 for a feature that reads across the origin)", o.Name(), calleeOr(callee, c)))
 				}
 			}
+			// ... nor permuted in place: no element of the slice is assigned from another element of it
+			// (a sort or swap written out, or inlined from a helper)
+			ast.Inspect(fd.Body, func(n ast.Node) bool {
+				as, ok := n.(*ast.AssignStmt)
+				if !ok || bad {
+					return true
+				}
+				for _, l := range as.Lhs {
+					ix, ok := ast.Unparen(l).(*ast.IndexExpr)
+					if !ok {
+						continue
+					}
+					o := core.ObjOf(info, ix.X)
+					if o == nil || !locals[o] {
+						continue
+					}
+					for _, rhs := range as.Rhs {
+						ast.Inspect(rhs, func(m ast.Node) bool {
+							if rx, ok := m.(*ast.IndexExpr); ok && core.ObjOf(info, rx.X) == o && !bad {
+								bad = true
+								r.Bad("NO-REORDER", key, p.Pos(as.Pos()), fmt.Sprintf("an element of the filled parts `%s` is assigned from another element of the same slice: the parts are permuted in place before they reach the constructor, which changes the reading order of the feature", o.Name()))
+							}
+							return !bad
+						})
+					}
+				}
+				return true
+			})
 			if !bad {
 				r.Ok("NO-REORDER", key, p.Pos(fd.Pos()), "the parts reach the constructor in the order they were filled")
 			}
